@@ -11,7 +11,7 @@ NAMES = {'a': 1, 'b': 2, 'p': 3, 'u': 4, 'b[2]': 4, 'k': 5, 'sol': 6, 'sf': 7, '
 REAL = {'a2': 'a', 'u': 'b[2]'}      # object u is NAMED 'b[2]': a name is an arbitrary string, and 'b' is another object
 STAGES = {'all': 0, 's1': 1, 's2': 2}
 RULE = ('complete enumeration: every call of the 38-call alphabet from every distinct lifecycle state reachable in <= N calls '
-        '(N = 3 quick; thorough: 3, plus every third state of the fourth layer), one representative path per state; non-trivial = every (state, call) pair; '
+        '(N = 3 quick, 4 thorough), one representative path per state; non-trivial = every (state, call) pair; '
         'distinct by (state key, call)')
 
 ALPHABET = [
@@ -254,7 +254,7 @@ def probe_other_arguments():
 
 def run(chk, gate, status):
     depth = 3 if chk.tier == 'quick' else 4
-    stride = 1 if chk.tier == 'quick' else 3      # thorough: every call from every state reachable in <= 3 calls, and from every third state at depth 4 (the full last layer takes hours)     # depth 5 with the 38-call alphabet is millions of (state, call) pairs
+    stride = 1      # every call from every state reachable within the bound (thorough: depth 4, about 640 000 (state, call) pairs, 12 minutes)
     cases, nstates = explore(depth, stride)
     # unused-object clause: needs the set of used names, which bake computes; checked through the model and directly below
     terms = ["showCalls init " + coq_list(["(" + coq_call(x) + ")" for x in path + (c,)]) for (path, c, out, st, bk) in cases]
